@@ -1323,14 +1323,12 @@ func c06r10(rc *core.RC) {
 	p := rc.P
 	n := 0
 	for _, short := range []string{"decoder", "json"} {
-		for _, fd := range p.Funcs(short) {
-			if fd.Body == nil {
-				continue
-			}
-			info := p.Info(fd)
-			fn := p.FuncName(fd)
+		pk := p.Pkg(short)
+		info := pk.TypesInfo
+		for _, file := range pk.Syntax {
 			k := 0
-			ast.Inspect(fd.Body, func(m ast.Node) bool {
+			base := p.FileBase(file.Pos())
+			ast.Inspect(file, func(m ast.Node) bool {
 				cl, ok := m.(*ast.CompositeLit)
 				if !ok {
 					return true
@@ -1342,7 +1340,11 @@ func c06r10(rc *core.RC) {
 				}
 				n++
 				k++
-				rc.Touch(fn)
+				where := short + "/" + base
+				if fd := core.EnclosingFunc(pk, cl.Pos()); fd != nil {
+					where = p.FuncName(fd)
+					rc.Touch(where)
+				}
 				has := false
 				for _, el := range cl.Elts {
 					if kv, ok := el.(*ast.KeyValueExpr); ok {
@@ -1351,7 +1353,7 @@ func c06r10(rc *core.RC) {
 						}
 					}
 				}
-				rc.Check(has, fmt.Sprintf("%s/RuntimeContext-literal#%d has-Option", fn, k), cl.Pos(), "a decoder RuntimeContext is built with its Option set (decoders dereference ctx.Option)")
+				rc.Check(has, fmt.Sprintf("%s/RuntimeContext-literal#%d has-Option", where, k), cl.Pos(), "a decoder RuntimeContext is built with its Option set (decoders dereference ctx.Option)")
 				return true
 			})
 		}
